@@ -41,6 +41,7 @@ REQUIRED_THEOREMS = [
     "C05_threeSew3_effect", "C05_threeSew3_vertices", "C05_threeUnsew3_effect",
     "C05_vertexId3_is_cell_min", "C05_oneSew3_cells", "C05_oneUnsew3_cells",
     "C05_edgeId3_is_cell_min", "C05_twoSew3_cells", "C05_twoUnsew3_cells", "C05_threeSew3_faces", "C05_threeSew3_cells",
+    "C05_threeUnsew3_cells",
 ]
 
 SPEC = {
@@ -78,8 +79,11 @@ SPEC = {
         "united, edge partition with l-r united, every id a cell minimum, new ids = min of the old ones under the proviso) and for 3-sew "
         "of closed faces (C05_threeSew3_faces, C05_threeSew3_cells: three_link links exactly the pairs (β1^t ld, β0^t rd); the zipped "
         "face walks list exactly these pairs; face/edge/vertex partitions = old ones with the stated pairs united; the collected ids are "
-        "cell minima pair by pair; under the proviso the merged-into id is the minimum of the united cell). NOT proved: the same for "
-        "3-unsew (chain C05_threeUnsew3_effect only), for open faces, and that the cell-level proviso implies the id-level one "
+        "cell minima pair by pair; under the proviso the merged-into id is the minimum of the united cell) and for 3-unsew of closed "
+        "faces on a mirrored map (C05_threeUnsew3_cells: three_unlink unlinks exactly these pairs, the old partitions are the new ones "
+        "with the pairs united, the face ids split into / from are cell minima). NOT proved: open faces (2-/3-(un)sews), the per-pair "
+        "edge/vertex identifiers inside the 3-unsew chain (they are cell minima of the unlinked map by C05_edgeId3_is_cell_min / "
+        "C05_vertexId3_is_cell_min, not extracted from the chain), and that the cell-level proviso implies the id-level one "
         "(`Disj`) used by C05_threeSew3_vertices — the two are stated separately; oracle for the rest",
         "ring-closing configurations where a cell takes part in two identifications of one call, and every other such configuration: "
         "correspondence only (the data clause of the oracle is skipped there, counted as skipped-multi)",
